@@ -456,8 +456,13 @@ func ParseTupleAndKeywords(args Tuple, kwargs StringDict, format string, kwlist 
 			arg = args[i]
 		}
 
-		// Unspecified args retain their default value
+		// Unspecified optional args retain their default value; a
+		// required one must have been supplied (the count check above
+		// cannot see that f(b=1) leaves the required a unset)
 		if arg == nil {
+			if i < min {
+				return ExceptionNewf(TypeError, "%s() Required argument '%s' (pos %d) not found", name, kw, i+1)
+			}
 			continue
 		}
 
